@@ -5,6 +5,7 @@ with arbitrary intervals, read-only questions about the sampler in between; adap
 missing loss, wrong length) are executed on the real samplers and on the Lean model (drivers/C15.lean);
 the sequence of returned point sets is canonicalised to ids (static) resp. row origins (adaptive) and compared.
 Property oracles (independent of the model) judge every case directly on the implementation's outputs."""
+import json
 import math
 from fractions import Fraction
 from unittest import mock
@@ -179,7 +180,13 @@ def run_static(case):
         if fresh:
             ident = len(seen)
             seen.append(t)
-        toks.append((f"{ident}@{d if dev_ok else 'X'}" if drawn else f"{ident}") + f":{d if on_dev else 'X'}")
+        if fresh:
+            # the device the underlying sampler was asked for when it produced this set -- wherever that draw happened (in this
+            # call, as coded, or earlier): the trace does not depend on the internal order of calls
+            src = [i for i in range(len(under.rec_draws) - 1, -1, -1)
+                   if under.rec_draws[i].shape == t.shape and torch.equal(under.rec_draws[i], t)]
+            dev_ok = bool(src) and torch.device(under.rec_devs[src[0]]) == torch.device(DEV[d])
+        toks.append((f"{ident}@{d if dev_ok else 'X'}" if fresh else f"{ident}") + f":{d if on_dev else 'X'}")
         # ---- property oracle, directly on what was returned
         if len(out) != len(seen[0]):
             problems.append((j, f"sample call {ncall} returned {len(out)} rows, the first call {len(seen[0])}"))
@@ -332,23 +339,26 @@ def run_adaptive(case):
             import random
             call = dict(call, loss=_gen_loss(random.Random(f"loss:{call['loss_seed']}"), n0 or 1))
         loss = None if call is None else [Fraction(m, DEN) for m in call["loss"]]
-        us = []           # random draws of the shape of the loss vector made during the call (the per-row thresholds)
+        us = []           # candidates for the per-row thresholds: uniform draws with one value per loss entry made during the
+        #                   call OUTSIDE the domain's own sampling (wherever in the call: before or after the candidate points,
+        #                   torch.rand or torch.rand_like, any dtype/device arguments)
+        injected = [False]
 
         def _thresholds(u):
             """record (and, if the case prescribes them, replace by the injected dyadic values) a threshold draw"""
-            if call is not None and call.get("u") is not None and tuple(u.shape) == (len(call["u"]),):
-                u = torch.tensor([float(Fraction(v, RDEN)) for v in call["u"]], dtype=u.dtype)
-            us.append(u.detach().clone())
+            if loss is None or getattr(dom, "rec_depth", 0) > 0 or u.numel() != len(loss):
+                return u          # a draw of the domain's sampling, or not one value per loss entry
+            if call.get("u") is not None and len(call["u"]) == u.numel() and not us:
+                u = torch.tensor([float(Fraction(v, RDEN)) for v in call["u"]], dtype=u.dtype, device=u.device).reshape(u.shape)
+                injected[0] = True
+            us.append(u.detach().clone().reshape(-1))
             return u
 
         def rand_like(x, *a, **k):
             return _thresholds(orig_rand_like(x, *a, **k))
 
         def rand(*a, **k):
-            u = orig_rand(*a, **k)
-            if loss is not None and tuple(u.shape) == (len(loss),):
-                return _thresholds(u)
-            return u
+            return _thresholds(orig_rand(*a, **k))
 
         before = len(dom.rec_draws)
         try:
@@ -375,10 +385,13 @@ def run_adaptive(case):
             break
         uvals = None
         if rnd and loss is not None and prev is not None:
-            if us and tuple(us[-1].shape) == (len(loss),):
-                uvals = [Fraction(float(v)) for v in us[-1].tolist()]
+            if len(us) == 1:
+                uvals = [Fraction(float(v)) for v in us[0].tolist()]
             else:
-                unobserved = True      # the per-row thresholds could not be observed: only threshold-free consequences are judged
+                # none or several candidates: the thresholds of this call are not observable.  Only what the statement
+                # determines without them is judged (rows of maximal loss / constant loss are kept, count, kept rows are the old
+                # rows, replaced rows are fresh rows inside the domain); the keep probability is covered by `adaptr_stat`
+                unobserved = True
         model_calls.append(_model_call(rnd, loss, uvals))
         # ---- property oracles
         if t.shape[0] != n0:
@@ -402,7 +415,7 @@ def run_adaptive(case):
                     continue
                 thr = lo + (hi - lo) * (ratio if not rnd else uvals[i])
                 # float32 rounding of (hi-lo)*u and of the sum is below 2^-24 (|hi-lo| + max(|lo|,|hi|)); 8x safety
-                if rnd and hi > lo and call.get("u") is None and \
+                if rnd and hi > lo and not injected[0] and \
                         abs(loss[i] - thr) <= Fraction(1, 2 ** 21) * ((hi - lo) + max(abs(lo), abs(hi))):
                     expect.append("either")
                     undecided = True
@@ -436,6 +449,55 @@ def run_adaptive(case):
         prev, prev_org = t, org
     return dict(text=" | ".join(texts), problems=problems, calls=model_calls, n=n0, undecided=undecided, unobserved=unobserved,
                 accepted_malformed=accepted_malformed)
+
+
+STAT_LEVELS = [0, 16, 32, 48, 64]      # losses m/64: normalised loss 0, 1/4, 1/2, 3/4, 1
+STAT_TOL = 0.08                        # Hoeffding: P(|freq - p| > 0.08) <= 2 exp(-2 * 2400 * 0.08^2) < 1e-13 per level
+
+
+def run_adaptive_stat(case):
+    """random variant WITHOUT intercepting any random draw: the same loss vector is passed `reps` times, a row counts as kept
+    if it is unchanged; the keep frequency per loss level is compared with the documented probability (loss-min)/(max-min).
+    Only a failing-input search / fallback for thresholds the recorder cannot see; the tolerance makes a false alarm on a
+    correct sampler less likely than 1e-12 per run."""
+    tp = common.use_repo()
+    import torch
+    torch.manual_seed(case.get("tseed", 0))
+    dom, inside = _make_domain(dict(case, dom="rect"), tp, torch)
+    n, reps = case["n"], case["reps"]
+    s = tp.samplers.AdaptiveRandomRejectionSampler(dom, n_points=n)
+    loss_m = [STAT_LEVELS[i % len(STAT_LEVELS)] for i in range(n)]
+    loss = torch.tensor([m / DEN for m in loss_m])
+    problems = []
+    prev = s.sample_points().as_tensor.detach().clone()
+    kept = {m: 0 for m in STAT_LEVELS}
+    total = {m: 0 for m in STAT_LEVELS}
+    for r in range(reps):
+        t = s.sample_points(unreduced_loss=loss).as_tensor.detach().clone()
+        if t.shape != prev.shape:
+            problems.append((0, f"adaptive call {r + 2} returned {t.shape[0]} points, the first call {prev.shape[0]}: the number of points must stay constant"))
+            break
+        same = (t == prev).all(dim=1).tolist()
+        for i, m in enumerate(loss_m):
+            total[m] += 1
+            kept[m] += 1 if same[i] else 0
+            if m == STAT_LEVELS[-1] and not same[i]:
+                problems.append((0, f"random variant, call {r + 2}: row {i} has the maximal loss and must be kept (every threshold is below the maximum), but it was replaced"))
+            if not same[i] and not inside(tuple(t[i].tolist())):
+                problems.append((0, f"random variant, call {r + 2}: replacement for row {i} lies outside the domain"))
+        prev = t
+        if problems:
+            break
+    freq = {}
+    if not problems:
+        for m in STAT_LEVELS:
+            pdoc = Fraction(m - STAT_LEVELS[0], STAT_LEVELS[-1] - STAT_LEVELS[0])
+            f = kept[m] / max(1, total[m])
+            freq[str(pdoc)] = round(f, 4)
+            if abs(f - float(pdoc)) > STAT_TOL:
+                problems.append((0, f"random variant: rows with normalised loss {pdoc} were kept in {kept[m]} of {total[m]} calls "
+                                    f"(frequency {f:.3f}); the documented keep probability is {float(pdoc):.2f} (tolerance {STAT_TOL})"))
+    return dict(text="keep frequencies " + json.dumps(freq, sort_keys=True), problems=problems, line=None)
 
 
 def _model_call(rnd, loss, uvals):
@@ -614,12 +676,16 @@ def gen_cases(ctx):
         cases.append(gen_adaptive(rng, False))
     for _ in range(ctx.scale(350, 4000)):
         cases.append(gen_adaptive(rng, True))
+    for _ in range(ctx.scale(1, 4)):
+        cases.append(dict(kind="adaptr_stat", n=60, reps=200, tseed=rng.randint(0, 10 ** 6)))
     return cases
 
 
 # ------------------------------------------------------------------------------------------
 
 def evaluate(case):
+    if case["kind"] == "adaptr_stat":
+        return run_adaptive_stat(case)
     if case["kind"] == "static":
         res = run_static(case)
         res["line"] = static_line(case)
@@ -631,6 +697,8 @@ def evaluate(case):
 
 def _truncate(case, j):
     c = dict(case)
+    if case["kind"] == "adaptr_stat":
+        return c
     if case["kind"] == "static":
         c["ops"] = case["ops"][: j + 1]
     else:
@@ -640,6 +708,12 @@ def _truncate(case, j):
 
 def judge(rep, case, res, model_reply):
     kind = case["kind"]
+    if kind == "adaptr_stat":
+        rep.count("adaptive-random:keep-frequency-experiment (no interception)")
+        rep.notes.append(res["text"])
+        for j, p in res["problems"][:1]:
+            rep.fail(p, case)
+        return
     if kind == "static":
         rep.count("static:" + case["under"] + (":empty" if case["n"] == 0 else ""))
         rep.count("start:" + ("plain" if case["start"][0] == "plain" else f"static/{_bucket(case['start'][1])}"))
@@ -671,9 +745,8 @@ def judge(rep, case, res, model_reply):
         model = model_reply
         what = f"adaptive history: drivers/C15.lean `{kind}` (TPV.SamplerState.adaptiveRun) vs row origins decoded from the real sampler's output"
     if res.get("unobserved"):
-        rep.count("adaptive-random:thresholds-not-observable")
-        rep.disagree(what + " -- the per-row random thresholds of the implementation could not be observed (no torch.rand_like / "
-                     "torch.rand draw of the shape of the loss vector)", case, res["text"], model)
+        # no canonical per-row comparison is possible; the structural oracle has judged the case, the law is judged by adaptr_stat
+        rep.count("adaptive-random:thresholds-unobservable")
     elif model is not None and not res.get("undecided") and res["text"] != model:
         rep.disagree(what, case, res["text"], model)
     seen = set()
@@ -694,6 +767,8 @@ def _lenbucket(n):
 
 
 def _nontrivial(case):
+    if case["kind"] == "adaptr_stat":
+        return True
     if case["kind"] == "static":
         return sum(1 for o in case["ops"] if o[0] == "s") >= 3 and case["n"] > 0
     real = [c for c in case["calls"] if c is None or "q" not in c]
@@ -713,7 +788,11 @@ def run(ctx, rep, cases=None, oracle_only=False):
     failure = None
     if not oracle_only:
         try:
-            replies = common.run_driver("C15", [r["line"] for r in results])
+            idx = [i for i, r in enumerate(results) if r["line"] is not None]
+            answers = common.run_driver("C15", [results[i]["line"] for i in idx])
+            replies = [None] * len(results)
+            for i, a in zip(idx, answers):
+                replies[i] = a
         except common.DriverFailure as e:
             failure = e
     if failure is None and not oracle_only:
